@@ -274,6 +274,22 @@ Definition vela_hardswish_entry (zp_in zp_out out_scale out_shift relu_scale rel
   obind (GenFpMath.rounding_divide_by_pot lut_result shift) (fun r =>
   Some (clampZ qmin qmax (r + zp_out)))))))))))).
 
+(* ---------------------------------------------------------------------------------------------
+   NumPy-2 evaluation of shift_left16 when `a` arrives as np.int16 (convert_hardswish_to_lut passes
+   np.int16(input_value_hires)): in `a * (1 << offset)` the Python int is converted to int16 (OverflowError
+   when it does not fit) and the product wraps in int16 (RuntimeWarning only); the two saturation tests then
+   never fire.  Tied to the real function by correspondence (CMD shl16np). *)
+Definition np_shift_left16_int16 (a offset : Z) : option Z :=
+  if offset >=? 0 then
+    if in_int 16 a then
+      obind (chk_int 16 (Z.shiftl 1 offset)) (fun k =>
+        let shifted := cast16 (a * k) in
+        if shifted <? -32768 then Some (-32768)
+        else if shifted >? 32767 then Some 32767
+        else Some shifted)
+    else None
+  else None.
+
 (* optimise_quantize, same-width requantisation of one constant *)
 Definition vela_requant_entry (zp_in zp_out mult shift qmin qmax v : Z) : option Z :=
   obind (GenFpMath.multiply_by_quantized_multiplier (v - zp_in) mult shift)
